@@ -1,6 +1,7 @@
 package rules
 
 import (
+	"go/token"
 	"golang.org/x/tools/go/ssa"
 
 	"polyverif/core"
@@ -41,7 +42,7 @@ func checkAddressFromDeclaredThreshold(c *core.Ctx) {
 			n++
 			kb, kf, okK := fieldLoad(ir.Strip(keys))
 			mb, mf, okM := fieldLoad(ir.Strip(m))
-			ok := okK && okM && kf == "PubKeys" && mf == "M" && (ir.Strip(kb) == ir.Strip(mb) || sameValue(kb, mb) || sameAccessPath(kb, mb))
+			ok := okK && okM && kf == "PubKeys" && mf == "M" && (ir.Strip(kb) == ir.Strip(mb) || sameValue(kb, mb) || sameAccessPath(kb, mb) || copiedFrom(kb) == copiedFrom(mb))
 			why := ""
 			if !ok {
 				why = "the threshold the address is derived from is not the entry's declared M (" + ir.Strip(m).String() + "): an entry with spare signature blobs is attributed another account's address"
@@ -50,4 +51,34 @@ func checkAddressFromDeclaredThreshold(c *core.Ctx) {
 		}
 	}
 	c.Floor("multi-key address derivations (validator + GetSignatureAddresses)", n, 2)
+}
+
+// copiedFrom: the local variable a by-value copy was taken from — a helper's spill of a struct parameter
+// whose argument is the load of the caller's local resolves to that local (one object, two names).
+func copiedFrom(v ssa.Value) ssa.Value {
+	for i := 0; i < 4; i++ {
+		v = ir.Strip(v)
+		al, ok := v.(*ssa.Alloc)
+		if !ok {
+			return v
+		}
+		st := ir.SingleStore(al)
+		if st == nil {
+			return v
+		}
+		if ld, isLd := st.(*ssa.UnOp); isLd && ld.Op == token.MUL {
+			v = ld.X // a local copy of an element: the element's address names the object
+			continue
+		}
+		p, isP := st.(*ssa.Parameter)
+		if !isP {
+			return v
+		}
+		ld, isLd := ir.Strip(p).(*ssa.UnOp)
+		if !isLd {
+			return v
+		}
+		v = ld.X
+	}
+	return v
 }
